@@ -317,7 +317,7 @@ def c01(tier, replay=None):
 DEFECTS = ["missing_value", "missing_value_loop", "missing_value_table", "dup_scalar", "dup_scalar_case", "dup_loop_stored", "dup_loop_header",
            "dup_block", "dup_frame", "partial_packet", "null_loop", "null_loop_loop", "empty_loop", "missing_endquote", "missing_endquote_dq",
            "unclosed_text", "unclosed_triple", "missing_space_qq", "missing_space_qname", "missing_space_list", "stray_cbracket", "stray_cbrace",
-           "missing_cbracket", "missing_cbrace", "missing_key", "missing_key_bare", "null_key", "unquoted_key", "text_key", "reserved_data",
+           "missing_cbracket", "missing_cbrace", "missing_key", "missing_key_bare", "null_key", "unquoted_key", "unquoted_key_sp", "unquoted_key_eol", "unquoted_key_q", "null_key_sp", "missing_key_only", "text_key", "reserved_data",
            "reserved_stop", "reserved_global", "unexpected_value", "unexpected_value_q", "unexpected_term", "no_frame_term", "nested_frame",
            "eof_in_frame", "overlength", "maxlength", "overlength_u4", "maxlength_u4", "long_u4_value", "lookalike_stop", "lookalike_loop", "lookalike_global", "lookalike_qmark", "disallowed_char", "disallowed_char_cmt", "disallowed_del", "no_block_header"]
 
